@@ -712,7 +712,7 @@ child_body(const mc_op *op, int depth_left, int dev_used)
             explore_node(depth_left, dev_used);
         else {
             __sync_fetch_and_add(&S->traces, 1);
-            if (S->nsamples < 6) {
+            if (S->nsamples < 2 || (S->nsamples < 12 && key % 211 == 0)) {
                 char tr[1400];
                 mc_current_trace(tr, sizeof tr);
                 mc_sample("[%s] %s", g_cfgdesc, tr);
